@@ -71,3 +71,22 @@ package codescan
 //@ ensures vs_hasJSONTag(field) ==> isString == (vs_jsonOpts(field).Contain("string") && isFieldStringable(field.Type))
 //@ ensures vs_hasJSONTag(field) ==> ignore == (vs_jsonOpts(field).Name() == "-")
 //@ ensures vs_hasJSONTag(field) ==> name == vs_jsonName(field)
+
+//@ func setPathOperation
+//@ props C17
+//@ safety
+//@ requires pthObj != nil
+//@ modifies &pthObj.Get, &pthObj.Post, &pthObj.Put, &pthObj.Patch, &pthObj.Head, &pthObj.Delete, &pthObj.Options
+//@ ensures result != nil
+//@ ensures vs_isMethod(strings.ToUpper(method)) ==> vs_slot(pthObj, strings.ToUpper(method)) == result
+//@ ensures op != nil && (old(vs_slot(pthObj, strings.ToUpper(method))) == nil || old(vs_slot(pthObj, strings.ToUpper(method)).ID) != id) ==> result == op
+//@ ensures vs_all(func(m string) bool { return m != strings.ToUpper(method) ==> vs_slot(pthObj, m) == old(vs_slot(pthObj, m)) })
+
+//@ func convert
+//@ props C17
+//@ safety
+//@ modifies nothing
+//@ ensures (typeStr == TypeInteger || typeStr == TypeNumber) && vs_floatOK(valueStr) ==> result == interface{}(vs_float(valueStr))
+//@ ensures (typeStr == TypeBoolean || typeStr == TypeBool) && vs_boolOK(valueStr) ==> result == interface{}(vs_bool(valueStr))
+//@ ensures !(typeStr == TypeInteger || typeStr == TypeNumber) && !(typeStr == TypeBoolean || typeStr == TypeBool) ==> result == interface{}(valueStr)
+//@ ensures (typeStr == TypeInteger || typeStr == TypeNumber) && !vs_floatOK(valueStr) ==> result == interface{}(valueStr)
